@@ -375,6 +375,38 @@ class Interp(Run, StmtMixin, ExprMixin, CallMixin, BuiltinMixin, LoopMixin, Spec
             self.outcome = ("exc", pr)
         self.post_obligations(fr)
 
+    def protect_obligation(self):
+        """FRAME for a unit that may modify anything except `protects`: each
+        protected location is unchanged at exit (one arbitrary index per array)."""
+        from .heap import sel
+
+        unit = self.unit
+        locs = []
+        h0, h1 = self.entry_heap, self.heap
+        saved_next = self.next_addr
+        self.heap = h0  # the protected locations are named in the entry state
+        self.next_addr = self.A0
+        try:
+            for m in unit.protects:
+                locs.extend(self.eval_locs(m, env=dict(self.entry_env)))
+        finally:
+            self.heap = h1
+            self.next_addr = saved_next
+        a = fresh("pr_a", core.IntS)
+        for field, sort in core.HEAP_FIELDS.items():
+            if h0.cur[field].get_id() == h1.cur[field].get_id():
+                continue
+            idx = (a, fresh("pr_k", sort.range().domain())) if field in core.NESTED else (a,)
+            cs = [c for c in (self.loc_match(p, field, idx) for p in locs) if c is not None]
+            if not cs:
+                continue
+            facts = []
+            v1 = h1.read(field, idx, facts)
+            v0 = h0.read(field, idx, facts)
+            goal = z3.Implies(z3.And(z3.Or(*cs), *facts), v1 == v0)
+            self.oblige("FRAME", f"protects.{field}", goal, f"{unit.protects} unchanged ({field})", None,
+                        where="exit")
+
     def frame_obligation(self, env):
         """FRAME: every location that existed at entry and is not listed in
         `modifies` is unchanged (skolemised: one arbitrary location per array)."""
@@ -427,6 +459,8 @@ class Interp(Run, StmtMixin, ExprMixin, CallMixin, BuiltinMixin, LoopMixin, Spec
             self.check_preserved(unit.preserves, self.entry_heap.ver, "FRAME", "unit")
             if not getattr(unit, "region", None) and unit.modifies != ["*"] and not unit.ghost.get("no_frame_check"):
                 self.frame_obligation(env)
+            elif unit.protects:
+                self.protect_obligation()
         if kind == "ret":
             env["result"] = payload
             for i, cl in enumerate(unit.ensures):
